@@ -29,7 +29,8 @@ def verify_one(job):
     from pyvc import engine, solve, sym
     t0 = time.time()
     res = {'function': qual, 'obligations': [], 'error': None,
-           'unsupported': None, 'inlined': [], 'assumed': []}
+           'unsupported': None, 'inlined': [], 'assumed': [],
+           'used_assumptions': []}
     try:
         T, repo = load_contracts(mods)
         ex = engine.Exec(repo, T)
@@ -37,6 +38,7 @@ def verify_one(job):
         obls = ex.verify(qual)
         res['inlined'] = sorted(ex.inlined)
         res['assumed'] = sorted(ex.assumed_calls)
+        res['used_assumptions'] = sorted(ex.used_assumptions)
         res['paths'] = ex.path_count
         c = T.get(qual)
         for ob in obls:
